@@ -26,6 +26,8 @@ pub enum Case {
     Blocked { state: u8, variant: u8, sender: u8, payload: u32 },
     /// legacy wait-list entries (user, batch, amount) present while paused; migration with the given limits
     Legacy { entries: Vec<(u8, u8, Uint128)>, limits: Vec<Option<u8>> },
+    /// many legacy entries (n distinct (user, batch) pairs; the default migration page is 1000 entries)
+    LegacyBulk { n: u16, limits: Vec<Option<u16>> },
     /// history H vs H with a pause / blocked attempts / unpause cycle inserted before op `at`
     Meta { history: History, at: u8, attempts: Vec<(u8, u8)> },
 }
@@ -192,6 +194,28 @@ fn blocked_check(out: &mut CaseResult, state: u8, variant: u8, sender: u8, paylo
 }
 
 fn legacy_check(out: &mut CaseResult, entries: &[(u8, u8, Uint128)], limits: &[Option<u8>]) {
+    let mut legacy: std::collections::BTreeMap<(String, u64), u128> = Default::default();
+    // de-duplicate (user, batch): the old layout holds one amount per pair
+    for (u, b, a) in entries {
+        legacy.insert((user(*u % 4), 1 + *b as u64 % 12), a.u128());
+    }
+    let lims: Vec<Option<u32>> = limits.iter().map(|l| l.map(|x| x as u32)).collect();
+    legacy_run(out, legacy, lims)
+}
+
+fn legacy_bulk_check(out: &mut CaseResult, n: u16, limits: &[Option<u16>]) {
+    let mut legacy: std::collections::BTreeMap<(String, u64), u128> = Default::default();
+    for i in 0..n as u64 {
+        legacy.insert((format!("legacy{}", i % 7), 1 + i / 7), 1000 + i as u128);
+    }
+    out.label("bulk_legacy_entries");
+    if n > 1000 {
+        out.label("more_legacy_entries_than_one_default_page");
+    }
+    legacy_run(out, legacy, limits.iter().map(|l| l.map(|x| x as u32)).collect())
+}
+
+fn legacy_run(out: &mut CaseResult, legacy: std::collections::BTreeMap<(String, u64), u128>, limits: Vec<Option<u32>>) {
     let cfg = Cfg::default();
     let mut w = deploy(&cfg);
     w.mint("user0", USEI, 1_000_000);
@@ -202,11 +226,6 @@ fn legacy_check(out: &mut CaseResult, entries: &[(u8, u8, Uint128)], limits: &[O
         return;
     }
     w.tx(OWNER, HUB, &pause_msg(Some(true)), &[]).expect("pause");
-    // de-duplicate (user, batch): the old layout holds one amount per pair
-    let mut legacy: std::collections::BTreeMap<(String, u64), u128> = Default::default();
-    for (u, b, a) in entries {
-        legacy.insert((user(*u % 4), 1 + *b as u64 % 12), a.u128());
-    }
     {
         let store = &mut w.contracts.get_mut(HUB).unwrap().1;
         for ((u, b), a) in &legacy {
@@ -233,7 +252,9 @@ fn legacy_check(out: &mut CaseResult, entries: &[(u8, u8, Uint128)], limits: &[O
         }
     }
     // migrate with the generated limits, then without limit
-    let mut lims: Vec<Option<u32>> = limits.iter().map(|l| l.map(|x| x as u32)).collect();
+    let mut lims: Vec<Option<u32>> = limits.clone();
+    lims.push(None);
+    lims.push(None);
     lims.push(None);
     for lim in lims {
         let params = hub_params(&w);
@@ -361,6 +382,8 @@ impl Prop for C11 {
             2 => (0u8..4, 0u8..HUB_VARIANTS.len() as u8, 0u8..SENDERS.len() as u8, any::<u32>()).prop_map(|(state, variant, sender, payload)| Case::Blocked { state, variant, sender, payload }),
             2 => (proptest::collection::vec((0u8..4, 0u8..12, (1u128..1_000_000_000u128).prop_map(Uint128::new)), 0..9), proptest::collection::vec(proptest::option::of(0u8..5), 0..4))
                 .prop_map(|(entries, limits)| Case::Legacy { entries, limits }),
+            1 => (prop_oneof![3 => 0u16..60, 1 => 990u16..1010, 1 => 1001u16..2100], proptest::collection::vec(proptest::option::of(prop_oneof![0u16..5, 900u16..1100]), 0..3))
+                .prop_map(|(n, limits)| Case::LegacyBulk { n, limits }),
             5 => (history_strategy(&p, cfg_strategy()), any::<u8>(), proptest::collection::vec((0u8..HUB_VARIANTS.len() as u8, 0u8..6), 0..5))
                 .prop_map(|(history, at, attempts)| Case::Meta { history, at, attempts }),
         ]
@@ -384,6 +407,10 @@ impl Prop for C11 {
                 }
             }
         }
+        for n in [0u16, 1, 999, 1000, 1001, 1500, 2001] {
+            v.push(Case::LegacyBulk { n, limits: vec![] });
+            v.push(Case::LegacyBulk { n, limits: vec![Some(1000)] });
+        }
         v
     }
     fn check(&self, c: &Case, _lenient: bool) -> CaseResult {
@@ -392,6 +419,7 @@ impl Prop for C11 {
         match c {
             Case::Blocked { state, variant, sender, payload } => blocked_check(&mut out, *state, *variant, *sender, *payload),
             Case::Legacy { entries, limits } => legacy_check(&mut out, entries, limits),
+            Case::LegacyBulk { n, limits } => legacy_bulk_check(&mut out, *n, limits),
             Case::Meta { history, at, attempts } => {
                 if history.ops.is_empty() {
                     return out;
